@@ -428,14 +428,21 @@ def rule_schema(ctx, model):
                       "loader columns are written by the table's writers")
 
 
-def binding_of(d, node, expr, fn):
+def binding_of(d, node, expr, fn, ev=None):
     """normalised description of what a bound SQL parameter is fed by"""
     ps = params_of(fn)
     if isinstance(expr, ast.Constant):
         return ("const", repr(expr.value))
+    if isinstance(expr, ast.UnaryOp) and isinstance(expr.operand, ast.Constant):
+        return ("const", unparse(expr))
+    if ev is not None and isinstance(expr, ast.Attribute) and isinstance(expr.value, ast.Name):
+        # a named constant of the class / module (`self.LOCAL_ID`) is the constant
+        a = alts(ev.ev(expr))
+        if a and len(a) == 1 and isinstance(a[0], (int, str, bytes, float)):
+            return ("const", repr(a[0]))
     if isinstance(expr, ast.IfExp):
         # python2 compatibility idiom `buffer(x) if sys.version_info < (2,7) else x`
-        return binding_of(d, node, expr.orelse, fn)
+        return binding_of(d, node, expr.orelse, fn, ev)
     # a variable of a comprehension / generator (`((1, k) for k in keys)`) stands for an element of what it iterates over
     comp = {}
     other_stores = set()
@@ -503,7 +510,7 @@ def rule_bind(ctx, model):
         if len(slots) != len(params.elts):
             continue
         for col, e in zip(slots, params.elts):
-            b = binding_of(d, n, e, fn)
+            b = binding_of(d, n, e, fn, Evaluator(model.repo, c.module, c))
             per.setdefault((c.qname, c, st.table, col), {}).setdefault(b, []).append((name, n, st))
     keycols = set()
     for (c, name, n, st, params) in model.stmts:
